@@ -29,6 +29,8 @@ import (
 	"github.com/noble-assets/orbiter/v2/entrypoint"
 	"github.com/noble-assets/orbiter/v2/keeper"
 	orbitertypes "github.com/noble-assets/orbiter/v2/types"
+	actiontypes "github.com/noble-assets/orbiter/v2/types/controller/action"
+	fwdtypes "github.com/noble-assets/orbiter/v2/types/controller/forwarding"
 	"github.com/noble-assets/orbiter/v2/types/core"
 	"github.com/noble-assets/orbiter/v2/zzverif/verif"
 )
@@ -486,4 +488,57 @@ func (i *ics4rec) SendPacket(_ sdk.Context, _ *capabilitytypes.Capability, port,
 func (i *ics4rec) GetAppVersion(_ sdk.Context, port, ch string) (string, bool) {
 	i.cbs = append(i.cbs, cbRec{method: "GetAppVersion", port: port, ch: ch})
 	return "ics20-1", true
+}
+
+
+// Earlier runs, before the packet under study, a complete and successful orbiter transfer with every optional element
+// present (fee action, destination caller / custom hook and metadata / another recipient) over route k-1, and then
+// forgets what the recorders saw. The keeper, the controllers, the parsers and whatever they keep in memory stay: the
+// packet under study must be handled as a function of itself and of the STORED state only.
+func (w *World) Earlier(k int) {
+	if k == 0 {
+		return
+	}
+	fl, fe, fc, fh, fi, fa := w.L.faults, w.Ev.faults, w.CCTP.faults, w.Hyp.faults, w.Int.faults, w.App.faults
+	w.L.faults, w.Ev.faults, w.CCTP.faults, w.Hyp.faults, w.Int.faults, w.App.faults = false, false, false, false, false, false
+	b32 := func(x byte) []byte {
+		b := make([]byte, 32)
+		for i := range b {
+			b[i] = x
+		}
+		return b
+	}
+	var f *core.Forwarding
+	var err error
+	switch k {
+	case 1:
+		f, err = fwdtypes.NewCCTPForwarding(5, b32(0xa1), b32(0xa2), nil)
+	case 2:
+		f, err = fwdtypes.NewHyperlaneForwarding(b32(0xb1), 4, b32(0xb2), b32(0xee), "0x00ff", math.NewInt(77), sdk.NewInt64Coin("uusdc", 55), nil)
+	default:
+		f, err = fwdtypes.NewInternalForwarding(user2.String())
+	}
+	must(err)
+	bp, err := actiontypes.NewFeeBasisPoints(250)
+	must(err)
+	fi1, err := actiontypes.NewFeeInfo(feeR2.String(), bp)
+	must(err)
+	am, err := actiontypes.NewFeeAmount("3")
+	must(err)
+	fi2, err := actiontypes.NewFeeInfo(feeR1.String(), am)
+	must(err)
+	act, err := actiontypes.NewFeeAction(fi1, fi2)
+	must(err)
+	p, err := core.NewPayload(f, act)
+	must(err)
+	w.L.Set(escrow, nativeDenom, math.NewInt(4000))
+	ack := w.Recv(orbiterData(math.NewInt(4000), p))
+	verif.Assert(ack.Success(), "earlier-transfer-executed")
+	verif.Cover("after-an-earlier-transfer")
+	// forget the recordings, keep the system
+	w.CCTP.reqs, w.Hyp.reqs, w.Hyp.queries, w.Int.reqs = nil, nil, nil, nil
+	w.Ev.list, w.L.sends, w.L.reads = nil, nil, 0
+	w.App.calls = 0
+	w.CCTP.burned = math.Int{}
+	w.L.faults, w.Ev.faults, w.CCTP.faults, w.Hyp.faults, w.Int.faults, w.App.faults = fl, fe, fc, fh, fi, fa
 }
